@@ -1,11 +1,13 @@
 import ClipperVerif.Driver.Basic
 import ClipperVerif.Driver.C18
+import ClipperVerif.Driver.Region
 namespace Clipper.Driver
 open Clipper.Proto
 
 def handlers : List (String → Option (P String)) := [
   Basic.handle,
-  C18.handle
+  C18.handle,
+  Region.handle
 ]
 
 def dispatch (cmd : String) : Option (P String) :=
